@@ -78,3 +78,32 @@ Proof. exists 6%Z, (-1)%Z, 7%Z. vm_compute. repeat split; try reflexivity; discr
 
 Theorem primary_fstring_quote_refuted : negative_primary_start (real_code (table_of [] [] []) fquote_witness).
 Proof. exists 11%Z, (-1)%Z, 12%Z. vm_compute. repeat split; try reflexivity; discriminate. Qed.
+
+(* ---- the logical-line simulation statement and its exclusion (Logical.shape_free).
+   Both witnesses above violate shape_free, the reference lexer reads them as two statements, rope as one; the same
+   texts with one blank between the offending quotes satisfy shape_free and rope agrees with the reference. *)
+Definition u0 : utable := table_of [] [] [].
+
+Theorem shape_free_witnesses :
+  shape_free u0 (all_lines escq_witness) = false
+  /\ ref_generator u0 (all_lines escq_witness) = Some [(1, 1); (2, 2)]%nat
+  /\ custom_generator u0 (all_lines escq_witness) = [(1, 3)]%nat
+  /\ shape_free u0 (all_lines adjstr_witness) = false
+  /\ ref_generator u0 (all_lines adjstr_witness) = Some [(1, 1); (2, 2)]%nat
+  /\ custom_generator u0 (all_lines adjstr_witness) = [(1, 3)]%nat.
+Proof. vm_compute. repeat split; reflexivity. Qed.
+
+(* x = <dq><dq><dq>a<backslash><dq> <dq><dq><dq> NL y = 1 NL   and   x = <sq>a<sq> <sq><sq><sq><sq><sq><sq> NL y = 1 NL *)
+Definition escq_neighbour : text :=
+  [120; 32; 61; 32; 34; 34; 34; 97; 92; 34; 32; 34; 34; 34; 10; 121; 32; 61; 32; 49; 10].
+Definition adjstr_neighbour : text :=
+  [120; 32; 61; 32; 39; 97; 39; 32; 39; 39; 39; 39; 39; 39; 10; 121; 32; 61; 32; 49; 10].
+
+Example shape_free_neighbours :
+  shape_free u0 (all_lines escq_neighbour) = true
+  /\ ref_generator u0 (all_lines escq_neighbour) = Some (custom_generator u0 (all_lines escq_neighbour))
+  /\ custom_generator u0 (all_lines escq_neighbour) = [(1, 1); (2, 2)]%nat
+  /\ shape_free u0 (all_lines adjstr_neighbour) = true
+  /\ ref_generator u0 (all_lines adjstr_neighbour) = Some (custom_generator u0 (all_lines adjstr_neighbour))
+  /\ custom_generator u0 (all_lines adjstr_neighbour) = [(1, 1); (2, 2)]%nat.
+Proof. vm_compute. repeat split; reflexivity. Qed.
